@@ -74,8 +74,53 @@ def cases(tier, seed):
     return out
 
 
+def cold_exchanges(rep):
+    """The three 1.6 exchanges whose validation goes through Decimal, each sequence in a FRESH interpreter: whole-number
+    limits first and fractional ones after, and the other way round -- what arrives must not depend on what the process
+    validated before (the in-process exchanges see these actions only after their validators exist)."""
+    from harness.props import c14
+    seqs = {}
+    for (mtype, action, path) in c14.POSITIONS:
+        base = c14.base_payload(mtype, action)
+        for x in (16, 21.4, 0.1, 32):
+            p = base
+            for (mt, a, pth) in c14.POSITIONS:
+                if (mt, a) == (mtype, action):
+                    p = c14.set_at(p, pth, x)
+            seqs.setdefault((mtype, action), {})[x] = p
+    g = GD.Gen("quick", 0)
+    for order, xs in (("int-first", (16, 21.4, 32, 0.1)), ("float-first", (21.4, 16, 0.1, 32))):
+        calls, metas = [], []
+        for (mtype, action), byx in sorted(seqs.items()):
+            other = [i for i in g.instances("1.6", action, "resp" if mtype == "Call" else "req") if not i[2] and isinstance(i[1], dict)][0][1]
+            for x in xs:
+                req, resp = (byx[x], other) if mtype == "Call" else (other, byx[x])
+                calls.append(("loopback_plain", ("1.6", action, GD.snake(req), GD.snake(resp)), {}))
+                metas.append((action, req, resp, x))
+        outs = D.cold(calls, module="harness.impl_net")
+        for (action, req, resp, x), out in zip(metas, outs):
+            rep.count("cold:%s:%s:%s" % (order, action, x))
+            replay = {"kind": "cold-exchange", "order": order, "action": action, "request": req, "response": resp}
+            if out[0] != "ok":
+                rep.violation("C06:cold:%s:%s:harness" % (order, action), "fresh interpreter, %s: %r" % (order, out[1:]), replay)
+                continue
+            call, kwargs, reply, kind, fields = out[1]
+            bad = None
+            if kind != "result":
+                bad = "call() ended with %r %r" % (kind, fields)
+            elif not O.same_value(json.loads(call)[3], req) or not O.same_value(kwargs, GD.snake(req)):
+                bad = "the request arrived as %r" % (kwargs,)
+            elif not O.same_value(json.loads(reply)[2], resp) or not O.same_value(fields, GD.snake(resp)):
+                bad = "the response arrived as %r" % (fields,)
+            if bad:
+                rep.violation("C06:cold:%s:%s:%s" % (order, action, x),
+                              "fresh interpreter, 1.6 %s exchanges in the order %s, value %r: %s" % (action, order, x, bad),
+                              dict(replay, observation=repr(out[1])[:1500]))
+
+
 def body_factory(tier, seed):
     def body(rep, support_ok):
+        cold_exchanges(rep)
         schemas = {"1.6": G.load_schemas("v16"), "2.0.1": G.load_schemas("v201")}
         terms, meta = [], []
         n_lb = [0]
@@ -175,6 +220,21 @@ def run(rep, tier, seed):
 
 
 def replay(d):
+    if d.get("kind") == "cold-exchange":
+        class R:
+            hit = []
+
+            def count(self, *_a):
+                pass
+
+            def violation(self, key, what, *_a, **_k):
+                self.hit.append(key)
+                print(what)
+        r = R()
+        cold_exchanges(r)
+        bad = [k for k in r.hit if (":%s:%s:" % (d["order"], d["action"])) in k]
+        print("FAILS" if bad else "HOLDS")
+        return 1 if bad else 0
     sreq, sresp = GD.snake(d["request"]), GD.snake(d["response"])
     obj = N.make_request(d["version"], d["action"], sreq, d.get("nested_as_dataclasses", False))
     res = N.run_loopback(d["version"], d["action"], obj, lambda kw: N.make_result(d["version"], d["action"], sresp, d.get("nested_as_dataclasses", False)),
